@@ -427,3 +427,29 @@ func TestIsNilKindsFuncConversionAndMethodSets(t *testing.T) {
 		t.Errorf("a nil interface value implements nothing")
 	}
 }
+
+// Convert panics for a slice shorter than the array (or array pointer) type it is converted to although ConvertibleTo
+// is true for the types; with a long enough slice it works (ConvSafe).
+func TestSliceToArrayConversion(t *testing.T) {
+	arr := reflect.TypeOf([3]int{})
+	parr := reflect.TypeOf(&[3]int{})
+	for _, n := range []int{0, 2, 3, 5} {
+		s := reflect.ValueOf(make([]int, n))
+		for _, tt := range []reflect.Type{arr, parr} {
+			if !s.Type().ConvertibleTo(tt) {
+				t.Fatalf("[]int must be convertible to %v as far as the types go", tt)
+			}
+			panicked := func() (p bool) {
+				defer func() { p = recover() != nil }()
+				s.Convert(tt)
+				return
+			}()
+			if panicked != (n < 3) {
+				t.Errorf("Convert of a %d-element slice to %v: panicked=%v", n, tt, panicked)
+			}
+		}
+	}
+	if arr.Len() != 3 || parr.Elem().Len() != 3 {
+		t.Errorf("Type.Len")
+	}
+}
